@@ -441,6 +441,28 @@ func (c *FnCtx) instr(in ssa.Instruction, bv *BlockVC) {
 			}
 		}
 		c.checkFieldInv(x, l, v)
+		if fa, ok := x.Addr.(*ssa.FieldAddr); ok && c.con != nil && c.con.AtStore != nil {
+			if stt := derefType(fa.X.Type()); stt != nil {
+				if su, ok := stt.Underlying().(*types.Struct); ok {
+					tn := tstr(stt)
+					if i := strings.LastIndex(tn, "."); i >= 0 {
+						tn = tn[i+1:]
+					}
+					key := tn + "." + su.Field(fa.Field).Name()
+					for _, cl := range c.con.AtStore[key] {
+						c.atNewSeen["store:"+key] = true
+						if !clauseActive(cl, c.prop) {
+							continue
+						}
+						env := c.specEnvFor(c.cur, c.entry, nil)
+						f := env.trGoal(cl.E)
+						c.flushFacts(env)
+						ob := c.assert(c.curItems, "requires", fmt.Sprintf("atstore:%s#%d", key, cl.Ord), "", f, x, cl.Tags, len(cl.Tags) == 0)
+						ob.Text = cl.Text
+					}
+				}
+			}
+		}
 		if ia, ok := x.Addr.(*ssa.IndexAddr); ok {
 			if _, isSlice := ia.X.Type().Underlying().(*types.Slice); isSlice {
 				if _, isPtr := x.Val.Type().Underlying().(*types.Pointer); isPtr {
